@@ -16,7 +16,7 @@ from concurrent.futures import ThreadPoolExecutor
 PKG = "c14"
 
 INVARIANTS = ("NothingBadPassedOn NothingGoodLost WholeResponseFailure SendJoinOnlyIfAllowed HonestAccepted "
-              "BadNeverVerifies AskBounds Emit")
+              "BadNeverVerifies AskBounds FetchedWhicheverCall BackfillBounds Emit")
 
 
 def cfg_text(kind, start, ver, maxfree, maxfaults, pairfrom, sim, simfaults):
@@ -49,7 +49,11 @@ def plans(tier):
               ("chain", 1, "10", 1, 2, 1, 0, 0),
               ("atstate", 1, "10", 1, 1, 1, 0, 0),
               ("load", 1, "12", 1, 1, 1, 0, 0),
-              ("load", 2, "10", 0, 2, 7, 0, 0)]
+              ("load", 2, "10", 0, 2, 7, 0, 0),
+              # RequestBackfill over two servers, the event provider failing transiently during the first round
+              ("backfill", 1, "10", 1, 1, 1, 0, 0),
+              ("backfill", 1, "12", 0, 1, 1, 0, 0),
+              ("backfill", 1, "1", 0, 1, 1, 0, 0)]
         return P
     for ver in ("10", "12"):
         P += [("sendjoin", 1, ver, 1, 2, 1 if ver == "10" else 6, 0, 0),
@@ -67,7 +71,10 @@ def plans(tier):
           ("sendjoin", 2, "10", 1, 2, 7, 0, 0),
           ("sendjoin", 2, "12", 1, 1, 1, 0, 0),
           ("load", 2, "12", 1, 1, 1, 0, 0),
-          ("load", 2, "10", 0, 2, 7, 0, 0)]
+          ("load", 2, "10", 0, 2, 7, 0, 0),
+          ("backfill", 1, "10", 1, 2, 7, 0, 0),
+          ("backfill", 2, "12", 1, 1, 1, 0, 0),
+          ("backfill", 1, "1", 1, 1, 1, 0, 0)]
     # every operation for every registered room version, second creation prefix, single deviations
     P += [("all", 2, ver, 0, 1, 1, 0, 0) for ver in VERSIONS]
     # the other event formats / rule sets, single faults
